@@ -308,6 +308,7 @@ int xcfg_set_count (const char *s)
 	if (!strcmp (s, "k2")) return k2_count ();
 	if (!strcmp (s, "full")) return full_count ();
 	if (!strcmp (s, "k1x")) return 1 + 2 + 1 + 3 + 3 + 1;   /* entry, algo, pricing, scaling only */
+	if (!strcmp (s, "kdir")) return 1 + 2 * 2 * 4;          /* default + full product {direct primal, direct dual} x scaling x warm start */
 	fprintf (stderr, "unknown config set %s\n", s); exit (2);
 }
 void xcfg_get (const char *s, int k, XCfg * x)
@@ -316,6 +317,7 @@ void xcfg_get (const char *s, int k, XCfg * x)
 	if (!strcmp (s, "default") || k == 0) { from_vec (v, x); return; }
 	if (!strcmp (s, "full")) { for (int i = 0; i < NFULL; i++) { v[i] = k % ccnt[i]; k /= ccnt[i]; } from_vec (v, x); return; }
 	k--;
+	if (!strcmp (s, "kdir")) { v[0] = 1 + k % 2; k /= 2; v[4] = k % 2; k /= 2; v[7] = k % 4; from_vec (v, x); return; }
 	int lim = !strcmp (s, "k1x") ? 5 : NCOORD;
 	for (int i = 0; i < lim; i++) { if (k < ccnt[i] - 1) { v[i] = k + 1; from_vec (v, x); return; } k -= ccnt[i] - 1; }
 	for (int i = 0; i < NCOORD; i++) for (int j = i + 1; j < NCOORD; j++) {
